@@ -218,7 +218,7 @@ class ExprGen:
             v = self.var('s')
             if v and r.random() < 0.6:
                 return v
-            s = r.choice(['', 'a', 'x y', '1', "it's"])
+            s = r.choice(['', 'a', 'x y', '1', "it's", 'fill: #fff', ':#', 'k: # v', 'a:', '#', 'x # y:', ': '])       # (a colon, a comment sign: not the end of a block header)
             return ('str', ge.quote_single(s), s)
         self.nops += 1
         if k < 0.6:
